@@ -7,11 +7,6 @@ use std::str::FromStr;
 
 use crate::error::Error;
 
-// numeric characters according to parseFloat
-const NUMERICS: &'static [char] = &[
-    '0', '1', '2', '3', '4', '5', '6', '7', '8', '9', '0', '.', '-', '+', 'e', 'E',
-];
-
 // TODOS:
 // - there are too many tests in docstrings
 // - the docstrings are too sarcastic about JS equality
@@ -722,45 +717,51 @@ pub fn to_negative(val: &Value) -> Result<f64, Error> {
 /// and NaN. That is okay, because this is only used in a context dealing
 /// with JSON values, which can't be Infinity or NaN.
 fn parse_float_string(val: &String) -> Option<f64> {
-    let (mut leading_numerics, _, _) = val.trim().chars().fold(
-        (Vec::new(), false, false),
-        |(mut acc, broke, saw_decimal), c| {
-            if broke {
-                // if we hit a nonnumeric last iter, just return what we've got
-                (acc, broke, saw_decimal)
-            } else if NUMERICS.contains(&c) {
-                let is_decimal = c == '.';
-                if saw_decimal && is_decimal {
-                    // if we're a decimal and we've seen one before, break
-                    (acc, true, is_decimal)
-                } else {
-                    // if we're a numeric, stick it on the acc
-                    acc.push(c);
-                    (acc, broke, saw_decimal || is_decimal)
-                }
-            } else {
-                // return the acc as is and let 'em know we hit a nonnumeric
-                (acc, true, saw_decimal)
-            }
-        },
-    );
-    // don't bother collecting into a string if we don't need to
-    if leading_numerics.len() == 0 {
-        return None;
+    // The longest prefix that is a decimal literal, as `parseFloat` does:
+    // [sign] (digits [. [digits]] | . digits) [(e|E) [sign] digits]
+    let s = val.trim_start_matches(is_js_whitespace);
+    let bytes = s.as_bytes();
+    let digits_from = |mut i: usize| {
+        while i < bytes.len() && bytes[i].is_ascii_digit() {
+            i += 1;
+        }
+        i
     };
-    if let Some('e') | Some('E') = leading_numerics.last() {
-        // If the last character is an 'e' or an `E`, remove it, to match
-        // edge case where JS ignores a trailing `e` rather than treating it
-        // as bad exponential notation, e.g. JS treats 1e as just 1.
-        leading_numerics.pop();
+    let mut end = match bytes.first() {
+        Some(b'+') | Some(b'-') => 1,
+        _ => 0,
+    };
+    if s[end..].starts_with("Infinity") {
+        return Some(if bytes[0] == b'-' {
+            f64::NEG_INFINITY
+        } else {
+            f64::INFINITY
+        });
     }
-
-    // collect into a string, try to parse as a float, return an option
-    leading_numerics
-        .iter()
-        .collect::<String>()
-        .parse::<f64>()
-        .ok()
+    let int_end = digits_from(end);
+    let mut mantissa_digits = int_end - end;
+    end = int_end;
+    if bytes.get(end) == Some(&b'.') {
+        let frac_end = digits_from(end + 1);
+        mantissa_digits += frac_end - (end + 1);
+        if mantissa_digits > 0 {
+            end = frac_end;
+        }
+    }
+    if mantissa_digits == 0 {
+        return None;
+    }
+    if let Some(b'e') | Some(b'E') = bytes.get(end) {
+        let exp_start = match bytes.get(end + 1) {
+            Some(b'+') | Some(b'-') => end + 2,
+            _ => end + 1,
+        };
+        let exp_end = digits_from(exp_start);
+        if exp_end > exp_start {
+            end = exp_end;
+        }
+    }
+    s[..end].parse::<f64>().ok()
 }
 
 /// Attempt to parse a value into a float.
